@@ -366,6 +366,22 @@ CLAIMED["C16"]["text"] += (" The except/suppress clauses of Persistence.start ar
 CLAIMED["C17"]["text"] += (" The except clauses of StreamTransport.read are extracted per try block with the error each raises (Gen.excStreamReadBlocks); the model maps an "
                            "exception through the block, and readClauses*_table proves the translated clause list equals the extracted block up to merging of clauses.")
 
+LISTEN_TIE = (" The assembly is read from the code as well (tools/translate_listen.py -> Generated/GatewayBodies.lean over Model/LitGateway.lean): one iteration of "
+              "Gateway.listen, Gateway.send and the two handler lookups (Command(k) -> ValueError, getattr -> AttributeError, the handle_<command> attributes each "
+              "handler class really has); Lemmas/GatewayBodiesEq.lean proves listenStep_eq (= recv) and send_eq (= apiSend) with load = the generated decoder and "
+              "dump = the generated encoder, so line -> decode -> lookup -> decorators -> body -> write is generated text end to end.")
+for _k in ("C03", "C04", "C05", "C06", "C07", "C08", "C10", "C11", "C12", "C19"):
+    CLAIMED[_k]["text"] += LISTEN_TIE
+CLAIMED["C16"]["text"] += (" The order and nesting of the steps is read from the code (tools/translate_lifecycle.py -> Generated/LifecycleBodies.lean over Model/LitLifecycle.lean: "
+                           "Gateway.__aenter__/__aexit__, Persistence.start with save_on_schedule and cancel_save, stop, as terms of an 11-constructor statement language with a "
+                           "continuation semantics) and Lemmas/LifecycleBodiesEq.lean proves generated_runs_model: the machine running the generated terms passes through exactly "
+                           "the states of Lifecycle.run for every fault record, exception class kind, start time, file and schedule.")
+CLAIMED["C16"]["technique"] += " + context-manager and saver control flow translated from the Python AST with a simulation proof (LifecycleBodiesEq)"
+CLAIMED["C18"]["text"] += (" The transport object is read from the code too (tools/translate_mqttclient.py -> Generated/MqttObjectBodies.lean over Model/LitMqttObject.lean: MQTTClient's "
+                           "five hooks and MQTTTransport.connect/disconnect/read/write/_receive/_receive_error) and Lemmas/MqttObjectBodiesEq.lean proves each equal to the object model "
+                           "(connect_eq with the five subscriptions in order, read_eq, write_eq with exactly one unretained publish, handle_incoming_eq, genRun_state).")
+CLAIMED["C18"]["technique"] += " + MQTT client/transport methods translated from the Python AST with equality proofs (MqttObjectBodiesEq)"
+
 for pid, c in CLAIMED.items():
     checks.append({
         "property_id": pid,
